@@ -71,9 +71,10 @@ fn with_catalog(mut d: CtehexmlData) -> CtehexmlData {
     d
 }
 
-/// same as ctehexml::parse_with_catalog but with the catalog parsed once
+/// the library's own entry point (the catalogue is decompressed and merged by the library on every call, so state
+/// that the library might keep between calls is exercised too)
 pub fn parse_ctehexml_text(text: &str) -> Result<CtehexmlData, Error> {
-    Ok(with_catalog(hulc::ctehexml::parse(text)?))
+    hulc::ctehexml::parse_with_catalog(text)
 }
 
 /// legacy LIDER file: BDL text + catalog + default general data (zone D3)
